@@ -41,6 +41,7 @@ type Config struct {
 	Tier     string
 	Seed     uint64
 	Params   map[string]string
+	RunIndex int // index of the run being executed (lets a harness enumerate a finite family first)
 }
 
 func (c *Config) Int(key string, def int) int {
@@ -150,7 +151,7 @@ func Main(property string, args []string, fn RunFn) int {
 			fmt.Fprintln(os.Stderr, err)
 			return 2
 		}
-		cfg := &Config{Property: property, Tier: "replay", Seed: v.Seed, Params: v.Params}
+		cfg := &Config{Property: property, Tier: "replay", Seed: v.Seed, Params: v.Params, RunIndex: v.Run}
 		o := fn(zsim.ReplayTape(v.Decisions), cfg)
 		if *verbose {
 			sb, _ := json.MarshalIndent(o.Scenario, "", " ")
@@ -198,6 +199,7 @@ func RunRange(cfg *Config, fn RunFn, from, to, maxShrink int, wall time.Duration
 			break
 		}
 		t := zsim.NewTape(zsim.Mix(cfg.Seed, uint64(i)))
+		cfg.RunIndex = i
 		o := fn(t, cfg)
 		res.Runs++
 		if o.Evals > 0 {
@@ -300,6 +302,7 @@ func shrinkViolation(v *Violation, fn RunFn, cfg *Config, budget int) {
 		}
 		runs++
 		t := zsim.ReplayTape(dec)
+		cfg.RunIndex = v.Run
 		o := fn(t, cfg)
 		if o.Sig != "" && symptomOf(o) == v.symptom {
 			best = o
